@@ -123,8 +123,29 @@ def ob_window_arith(run, oid):
                 o.check(bool(div) and k == spw, "Slot::%s|mul|%d" % (fn, s_.ordinal), "multiplies (slot / SLOTS_PER_WINDOW) by SLOTS_PER_WINDOW (<= slot)", s_.span, {"lhs": mir.show(a)[:80], "rhs": mir.show(c)[:80]})
             elif s_.what == "Overflow:Sub" and K.const_eval(a) is not None and K.const_eval(c) is not None and K.const_eval(a) >= K.const_eval(c):
                 o.ok("Slot::%s|const-sub|%d" % (fn, s_.ordinal), "constant subtraction %d - %d" % (K.const_eval(a), K.const_eval(c)), s_.span, nontrivial=False)
+            elif s_.what == "Overflow:Sub" and panic_review.auto(s_, prog):
+                o.ok("Slot::%s|sub|%d" % (fn, s_.ordinal), panic_review.auto(s_, prog), s_.span)
             else:
-                o.fail("Slot::%s|%s|%d" % (fn, s_.what, s_.ordinal), "unexpected checked arithmetic %s in a window helper" % s_.what, s_.span)
+                # another spelling: decide by value - the helper must not panic for any slot of the first windows, around 2^32 / 2^63 and
+                # of the last two windows of u64 (these functions are piecewise linear in the slot with period SLOTS_PER_WINDOW)
+                from . import slots as _SL
+                from . import termeval as _TE
+                bad = None
+                grid = list(range(0, 3 * spw + 1)) + [2 ** 32 - 1, 2 ** 32, 2 ** 63 - 1, 2 ** 63] + list(range(2 ** 64 - 2 * spw - 1, 2 ** 64))
+                try:
+                    for sl in grid:
+                        try:
+                            if fn == "slots_in_window":
+                                _SL.eval_fn(prog, A + "types::slot::Slot::first_slot_in_window", [sl])
+                                _SL.eval_fn(prog, A + "types::slot::Slot::last_slot_in_window", [sl])
+                            else:
+                                _SL.eval_fn(prog, A + "types::slot::Slot::" + fn, [sl])
+                        except _TE.Overflow as e:
+                            bad = "panics for slot %d (%s)" % (sl, e)
+                            break
+                except _TE.Unknown as e:
+                    bad = "not evaluable (%s)" % str(e)[:60]
+                o.check(bad is None, "Slot::%s|%s|%d" % (fn, s_.what, s_.ordinal), "checked arithmetic %s in a window helper: no panic for any slot of the first, 2^32 / 2^63 and last windows (by value)" % s_.what, s_.span, {"problem": bad})
         if n == 0:
             o.ok("Slot::%s|no-checked-arith" % fn, "no overflow-checked arithmetic", b.span, nontrivial=False)
 
@@ -350,6 +371,12 @@ def check(run):
     from . import C14
     C14.ob_create_proof_guard(run, "O10.1d")
     C14.ob_request_identifier(run, "O10.1i")
+    # the reviewed unreachable!() / expect() sites of handle_response rely on the repair bookkeeping being written only where reviewed
+    D.ob_state_mutations(run, "O10.1k", ['repair::Repair'], 'handle_response treats "outstanding Shred request without a known slice root" as unreachable: freeing roots / slice counts while requests are outstanding makes a late response panic the repair task')
+    # an out-of-range last-slice index accepted by check_proof_last derails the repair for good (requests beyond the block, NACKed for ever)
+    from . import C15
+    with run.restricted(lambda oid: oid in ("O10.8.1", "O10.8.2")):
+        C15.check(run, prefix="O10.8", compose=False)
     from . import C11
     C11.ob_validated_set(run, "O10.1e")
     C11.ob_coder_reset(run, "O10.1f")
